@@ -20,6 +20,8 @@ let () =
   let snap = ref [] and yst = ref ybuf_empty and target = ref "" and prev_wseq = ref N0 in
   let pst = ref (pbuf_empty []) in
   let snap_seq : n option ref = ref None in
+  let sit : (n list * n list) list ref = ref [] in
+  let sit_seq : n ref = ref N0 in
   let cps : (string, nat) Hashtbl.t = Hashtbl.create 16 in
   let n = ref 0 and mism = ref 0 and progs = ref 0 in
   let counts = Hashtbl.create 64 in
@@ -97,6 +99,18 @@ let () =
               String.concat "," (List.map (fun ((k, f), v) ->
                 hex_of_bytes k ^ ":" ^ dec_of_n f ^ ":" ^ (match v with Some v -> hex_of_bytes v | None -> "nil")) l)
           | "sget" -> (match x_snap_get !st (bytes_of_hex (a 0)) with Some v -> "v " ^ hex_of_bytes v | None -> "nf")
+          | "sitnew" ->
+              sit := (if a 2 = "rev" then x_snap_iter_rev !st (bytes_of_hex (a 0)) (bytes_of_hex (a 1))
+                      else x_snap_iter !st (bytes_of_hex (a 0)) (bytes_of_hex (a 1)));
+              sit_seq := !yst.y_sseq; "ok"
+          | "sitclose" -> sit := []; "ok"
+          | "sitnext" ->
+              (* the open iterator yields the view of its creation, whatever was written since *)
+              let rec take k l = if k = 0 then ([], l) else match l with [] -> ([], []) | x :: r -> let (a, b) = take (k - 1) r in (x :: a, b) in
+              if !target <> "rbt" && !sit_seq <> !yst.y_sseq then begin sit := []; "-|invalid" end else begin
+              let (got, rest) = take (int_of_string (a 0)) !sit in
+              sit := rest;
+              kvs_string got ^ (if rest = [] then "|end" else "") end
           | "snapnew" -> snap_seq := Some !yst.y_sseq; "ok"
           | "snapget" ->
               if !snap_seq <> Some !yst.y_sseq then "invalid" else
